@@ -169,6 +169,47 @@ NEEDS = {
  'C20-3A': ('Map(icons=[]) shared mutable default', 'two maps alive and a later packet with other icons'),
  'C20-3B': ('record equality skips unset fields, the hash does not', 'a record with an unset slot compared with one where it is set'),
  'C20-3C': ('multi_attribute_alias setter stores under the container keyword', 'assignment through an alias whose field names differ (feet_y)'),
+ # round 4
+ 'C01-4A': ('_pop_packet writes queue[0] and pops afterwards', 'an outgoing listener calling disconnect() from inside the write'),
+ 'C01-4B': ('_react holds the lock only for the interrupt check, the reaction runs outside', 'a forced write from another thread between the encryption response and the cipher installation'),
+ 'C02-4A': ('FixedPoint instances interned by positional arguments, __init__ still runs', 'FixedPoint(T, fractional_bits=n) constructed after FixedPoint(T)'),
+ 'C02-4B': ('two-slot "last binding" memo in class_and_instancemethod.__get__', 'two threads calling *_with_context on different types with a switch between the two stores'),
+ 'C03-4A': ('VarInt gets static *_with_context overrides naming VarInt literally', 'VarLong.read_with_context of 2**42 or more'),
+ 'C03-4B': ('VarInt.send empties its per-thread buffer only after a successful send', 'a send that raises (or re-enters), then another encode on that thread'),
+ 'C04-4A': ('ConnectionContext(protocol_version=V) returns one shared object per version', 'two Connections constructed before either connected, negotiating versions either side of the layout switch'),
+ 'C04-4B': ('a version of None counts as the latest, tested by truthiness', 'protocol 0'),
+ 'C05-4A': ('String.read decodes with utf-8-sig', 'a string starting with U+FEFF'),
+ 'C05-4B': ('one (name, type) pair taken per definition entry', 'a user-defined definition entry mapping several names'),
+ 'C06-4A': ('PROTOCOL_VERSION_INDICES rebound by a comprehension on rebuild', 'a version added at run time, then its tables'),
+ 'C06-4B': ('write_packet keeps a context the packet already has', 'one packet object written on two Connections of different versions'),
+ 'C07-4A': ('write_packet keeps a context the packet already has', 'one packet object written on two Connections of different versions'),
+ 'C07-4B': ('compression options reset in connect() only', 'status() after a compressed play session on the same object'),
+ 'C08-4A': ('numeric comparison when neither number carries the PRE bit', 'a run-time record whose non-PRE number is out of numeric order (801 between 751 and 752)'),
+ 'C08-4B': ('initglobals(records=KNOWN_MINECRAFT_VERSION_RECORDS) default bound at definition', 'a new list assigned to the module attribute, then a rebuild'),
+ 'C09-4A': ('Connection takes its context from a per-version class-level table', 'two Connections with the same latest allowed version, one negotiating an older one'),
+ 'C09-4B': ('_handle_exit also requires connection.exception is None', 'a plain status() on an object whose earlier operation failed'),
+ 'C10-4A': ('_react runs the reaction outside the write lock', 'a forced write from another thread inside the switch to encryption'),
+ 'C10-4B': ('VarInt.read returns signed values', 'a login plugin request whose message id is 2**31 or more'),
+ 'C11-4A': ('50-packet allowance tested after read_packet consumed a frame', 'crossing the 50-read batch limit'),
+ 'C11-4B': ('deflated frames inflated one byte first for the id', 'compression on and a deflated unknown frame with an id of 128 or more'),
+ 'C12-4A': ('disconnect() flushes by iterating over the deque', 'a queued write landing between two packets of the flush'),
+ 'C12-4B': ('_pop_packet writes the head before removing it', 'an outgoing listener calling disconnect() from inside the write'),
+ 'C13-4A': ('shared helper pops early/outgoing from the kwargs dict', 'one listener() decorator object applied to two functions'),
+ 'C13-4B': ('bound-method callbacks held by WeakMethod', 'a bound method of an object nobody else references'),
+ 'C14-4A': ('handle_exception=False normalised in the constructor only', 'connection.handle_exception = False assigned after construction'),
+ 'C14-4B': ('early return skips the re-raise when a handler reconnected', 'a handler that reconnects and then raises, no final handler'),
+ 'C15-4A': ('status fallback retried with a counter kept on the reactor', 'end of stream in the status phase with the default being the newest allowed version'),
+ 'C15-4B': ('no fallback while a frame is being received, EOFError still swallowed', 'end of stream inside the body of the status response'),
+ 'C16-4A': ('non-immediate disconnect() joins the thread it interrupted', 'disconnect() from the predecessor thread with a pending successor'),
+ 'C16-4B': ('interrupt test of _react moved out of the write lock', 'a packet read just before disconnect(); status() from a user thread'),
+ 'C17-4A': ('join retried after a 403 with the hash as the new server id', 'the session service answering the first join 403 and the refresh 200'),
+ 'C17-4B': ('String.read decodes with utf-8-sig', 'a server id starting with U+FEFF'),
+ 'C18-4A': ('_react runs the reaction outside the write lock', 'a forced write from another thread inside the switch to encryption'),
+ 'C18-4B': ('EncryptedSocketWrapper.send holds back pieces of at most 3 bytes', 'a short last piece with no further send'),
+ 'C19-4A': ('authenticate/refresh extract the result before checking the status', 'an error status with a complete result object as body'),
+ 'C19-4B': ('validate() remembers the token it last got 204 for', 'validate, sign_out, validate on one object'),
+ 'C20-4A': ('flag tables cached per (module, qualname)', 'two generated flag enums with the same qualified name'),
+ 'C20-4B': ('MapSet(*maps) skips maps with a falsy id', 'a tracker constructed from a map with id 0'),
 }
 
 
